@@ -319,9 +319,7 @@ class SimTime:
 
     def sleep(self, secs):
         self.now += max(0.0, float(secs))
-        k = K()
-        if k is not None:
-            k.point('sleep', None, yielding=True)
+        _sync('sleep', None, yielding=True)
 
     def time(self):
         return self.now
